@@ -15,6 +15,7 @@ def showErr : RErr → String
   | .alreadyRunning => "err:already-running"
   | .noKey => "err:no-key"
   | .notInGroup => "err:not-in-group"
+  | .nilGroupPanic => "panic:nil-deref"
 
 def showRes : Except RErr Unit → String
   | .ok _ => "ok"
@@ -82,9 +83,10 @@ def routeStep (s : State) (f : List String) : State × String :=
   match f with
   | ["reset"] => (State.init, "ok")
   | ["disk", id, what] =>
-    match parseDisk what with
-    | some e => let (s, r) := step s (.disk (rtok id) e); (s, showRes r)
-    | none => (s, "bad-op")
+    match aget (canon (rtok id)) s.procs, parseDisk what with
+    | some _, _ => (s, "busy")
+    | none, some e => let (s, r) := step s (.disk (rtok id) e); (s, showRes r)
+    | none, none => (s, "bad-op")
   | ["load", id, hash] =>
     match parseMd id hash with
     | some md => let (s, r) := step s (.load md); (s, showRes r)
